@@ -87,6 +87,15 @@ def cases(tier, seed, i, n):
         for c in exhaustive4():
             yield c
         yield gen.mark('every fragmentation of a 4-byte message x <=1 empty fragment x ping subsets x 3 length forms x text/binary x 2 segmentations')
+        # fragments of 32..64 KiB, each arriving in a read of its own (it fits the receive buffer exactly once: what is kept
+        # of it must survive the following reads), and fragments larger than the buffer
+        for j, (size, cuts) in enumerate(((100000, [40001]), (140000, [33000, 73000]), (70000, [65000]), (98304, [32768, 65536]),
+                                          (200000, [70000, 140000]))):
+            for k in ('binary', 'text'):
+                yield dict(kind='rand', msgs=[dict(k=k, p=['rand' if k == 'binary' else 'textlen', 77 + j, size], cuts=cuts),
+                                              dict(k='ping', p=['lit', b'between']),
+                                              dict(k=k, p=['rand' if k == 'binary' else 'textlen', 78 + j, 33000], cuts=[])],
+                           seg='perframe', close=None, cutseed=j)
         rnd = random.Random(seed * 1000003 + 11)
         count = 2500 if tier == 'quick' else 60000
         for idx in range(count):
